@@ -22,8 +22,19 @@ def work(pid):
     return d
 
 
+TIMES = {}
+
+
 def run_harness(hb, d, seed, n, only=None, extra=()):
     """JIT process (also writes the model request file) and VM process. Returns (ok, message)."""
+    import time
+    t0 = time.time()
+    r = _run_harness(hb, d, seed, n, only, extra)
+    TIMES["harness"] = TIMES.get("harness", 0) + round(time.time() - t0, 1)
+    return r
+
+
+def _run_harness(hb, d, seed, n, only=None, extra=()):
     base = [hb, "-seed", str(seed), "-n", str(n)] + list(extra)
     if only:
         base += ["-only", only]
@@ -38,6 +49,14 @@ def run_harness(hb, d, seed, n, only=None, extra=()):
 
 
 def run_model(mexe, d, timeout=2400):
+    import time
+    t0 = time.time()
+    r = _run_model(mexe, d, timeout)
+    TIMES["model_run"] = TIMES.get("model_run", 0) + round(time.time() - t0, 1)
+    return r
+
+
+def _run_model(mexe, d, timeout=2400):
     inp = os.path.join(d, "model.in")
     outp = os.path.join(d, "model.out")
     rc, o = c.sh("ulimit -s unlimited 2>/dev/null; %s < %s > %s" % (mexe, inp, outp), timeout=timeout, check=False)
